@@ -182,6 +182,9 @@ func (g *Gen) frameObligations(env *TEnv) {
 		}
 		sk := g.fresh("frame_r", "Int")
 		conds := []string{fmt.Sprintf("(< 0 %s)", sk), fmt.Sprintf("(< %s %s)", sk, refBound)}
+		if strings.HasPrefix(n, "GS_") {
+			conds = []string{"true"} // abstract state map: every key
+		}
 		for _, t := range byComp[n] {
 			conds = append(conds, fmt.Sprintf("(not (= %s %s))", sk, t.ref))
 		}
